@@ -274,6 +274,10 @@ let gen_history rng maxlen cap : hl list * out list * aconf =
     | Some l ->
       let a1, o = hstep !a l in
       if executable o then begin
+        if not (invb a1) then begin
+          prerr_endline ("INVARIANT VIOLATED after: " ^ String.concat " ; " (List.rev_map str_hl (l :: !labels)));
+          exit 4
+        end;
         a := a1; labels := l :: !labels; outs := o :: !outs; incr count
       end
   done;
@@ -299,8 +303,63 @@ let gen seed count maxlen hist_file exp_file =
   done;
   close_out hf; close_out ef
 
+(* ---------- multi-actor random walk over raw labels (blocked sync callers included):
+   tests the invariant and the absence of RHang before they are proved ---------- *)
+let walk seed count maxlen =
+  let rng = Random.State.make [| seed |] in
+  let hangs = ref 0 and steps = ref 0 and blocked = ref 0 in
+  for _ = 1 to count do
+    let cap = caps.(Random.State.int rng (Array.length caps)) in
+    let a = ref (init_of_cap cap) in
+    let next_id = ref 2 and next_tag = ref 1 in
+    let fresh_id () = let i = !next_id in incr next_id; i in
+    let fresh_tag () = let i = !next_tag in incr next_tag; i in
+    let trace = ref [] in
+    for _ = 1 to maxlen do
+      let hs = List.map (fun (h, s) -> (int_of_n h, s)) !a.handles in
+      let of_side s = List.filter_map (fun (h, s') -> if s = s' then Some h else None) hs in
+      let objs_ = List.map (fun (k, o) -> (int_of_n k, o)) !a.objs in
+      let pickl l = if l = [] then None else Some (pick rng l) in
+      let lab : label option =
+        match Random.State.int rng 24 with
+        | 0 -> Option.map (fun (h, _) -> LClone (n h, n (fresh_id ()))) (pickl hs)
+        | 1 -> Option.map (fun (h, _) -> LDropH (n h)) (pickl hs)
+        | 2 -> if Random.State.int rng 4 = 0 then Option.map (fun (h, _) -> LClose (n h)) (pickl hs) else None
+        | 3 -> Option.map (fun (h, _) -> LObs (n h, snd (pick rng obs_names))) (pickl hs)
+        | 4 | 5 -> Option.map (fun h -> LSend (n (fresh_id ()), n h, n (fresh_tag ()))) (pickl (of_side SSend))
+        | 6 -> Option.map (fun h -> LSendTimeout (n (fresh_id ()), n h, n (fresh_tag ()))) (pickl (of_side SSend))
+        | 7 -> Option.map (fun h -> LSendOptTimeout (n (fresh_id ()), n h, Some (n (fresh_tag ())))) (pickl (of_side SSend))
+        | 8 -> Option.map (fun h -> LTrySend (n h, n (fresh_tag ()))) (pickl (of_side SSend))
+        | 9 -> Option.map (fun h -> LTrySendOptRT (n h, Some (n (fresh_tag ())), Random.State.bool rng)) (pickl (of_side SSend))
+        | 10 | 11 -> Option.map (fun h -> LRecv (n (fresh_id ()), n h)) (pickl (of_side SRecv))
+        | 12 -> Option.map (fun h -> LRecvTimeout (n (fresh_id ()), n h, Random.State.int rng 4 = 0)) (pickl (of_side SRecv))
+        | 13 -> Option.map (fun h -> LTryRecv (n h)) (pickl (of_side SRecv))
+        | 14 -> Option.map (fun h -> LDrain (n h)) (pickl (of_side SRecv))
+        | 15 -> Option.map (fun h -> LMkSend (n (fresh_id ()), n h, n (fresh_tag ()))) (pickl (of_side SSend))
+        | 16 -> Option.map (fun h -> LMkRecv (n (fresh_id ()), n h)) (pickl (of_side SRecv))
+        | 17 -> Option.map (fun h -> LMkStream (n (fresh_id ()), n h)) (pickl (of_side SRecv))
+        | 18 | 19 -> Option.map (fun (k, _) -> LPoll (n k, n (Random.State.int rng 3))) (pickl objs_)
+        | 20 -> Option.map (fun (k, _) -> LDropF (n k)) (pickl objs_)
+        | 21 | 22 -> Option.map (fun (k, _) -> LComplete (n k)) (pickl objs_)
+        | _ -> Option.map (fun (k, _) -> LTimeoutFire (n k)) (pickl objs_)
+      in
+      match lab with
+      | None -> ()
+      | Some l ->
+        let a1, o = astep !a l in
+        incr steps;
+        if o.r_res = RBlocked then incr blocked;
+        if o.r_res = RHang then begin incr hangs; prerr_endline ("RHANG in walk, cap " ^ cap); exit 5 end;
+        if not (invb a1) then begin prerr_endline ("INVARIANT VIOLATED in walk, cap " ^ cap ^ " after " ^ string_of_int (List.length !trace) ^ " steps; last out " ^ str_out o); exit 4 end;
+        trace := l :: !trace;
+        a := a1
+    done
+  done;
+  Printf.printf "walk: %d steps, %d blocked registrations, %d hangs, invariant held\n" !steps !blocked !hangs
+
 let () =
   match Array.to_list Sys.argv with
+  | [ _; "walk"; seed; count; maxlen ] -> walk (int_of_string seed) (int_of_string count) (int_of_string maxlen)
   | [ _; "run" ] -> run_stdin ()
   | [ _; "gen"; seed; count; maxlen; hf; ef ] ->
     gen (int_of_string seed) (int_of_string count) (int_of_string maxlen) hf ef
